@@ -409,3 +409,74 @@ def c08_routing_path_valid(ctx, v):
             ok += 0 if bad else 1
     v.covers_total += 1
     v.covers_sat += 1 if ok else 0
+
+
+def c08_block_counts_work_once(ctx, v):
+    """Block::generate (run on every block at creation, again on receipt and again inside
+    add_block, always on the same object): afterwards block.total_work — the figure the work gate
+    of Block::validate compares with the requirement — is exactly the sum of the carried
+    transactions' total_work_for_me, whatever total_work held before the call (so running it
+    twice does not count the routing work twice). 1..=2 transactions (thorough 3);
+    Transaction::generate is replaced by its contract (it writes a fresh total_work_for_me)."""
+    body = ctx.body(r"block::<impl at [^>]*>::generate$")
+    wi = ctx.field_index("Transaction", "total_work_for_me")
+    for n in ((1, 2) if ctx.tier == "quick" else (1, 2, 3)):
+        ex = ctx.executor(loop_bound=n + 4, inline="auto", max_paths=8000,
+                          no_inline=[r"Transaction::generate$", r"generate_merkle_root$", r"generate_pre_hash$", r"generate_hash$", r"generate_transaction_hashmap$", r"serialize_for_signature$", r"generate_cumulative_fees$"])
+        ex.pure = [r".*"]
+        works = [ex.fresh_value("u64", "tx%d.work_for_me" % i) for i in range(n)]
+        written = []
+
+        def hook(ex_, st, callee, args, dty, works=works, written=written):
+            if re.search(r"Transaction::generate$", callee):
+                a = args[0]
+                if isinstance(a, S.Ref) and a.path and a.path[-1][0] == "i":
+                    i = S.as_int(a.path[-1][1])
+                    tx = ex_.get_path(a.cell, a.path)
+                    tx.fields[wi] = works[i]
+                    st.events.append(("call", callee, args, None))
+                    return S.UNIT
+                raise S.Unsupported("Transaction::generate on a transaction that is not an element of block.transactions")
+            return None
+        ex.on_call = hook
+        txs, types = [], []
+        for i in range(n):
+            t = ex.fresh_value("TransactionType", "tx%d.type" % i)
+            outs = [L.sym_slip(ctx, ex, "tx%d.out%d" % (i, k)) for k in range(1)]
+            txs.append(ctx.mk_struct(ex, "Transaction", "tx%d" % i, transaction_type=t, **{"from": S.Seq([], "Slip"), "to": S.Seq(outs, "Slip"), "path": S.Seq([], "Hop")}))
+            types.append(t)
+        pre_work = ex.fresh_value("u64", "block.total_work.before")
+        block = ctx.mk_struct(ex, "Block", "block", transactions=S.Seq(txs, "Transaction"), total_work=pre_work)
+        st = S.State()
+        st.pc.extend([L.enum_in_range(t, L.TX_TYPES) for t in types])
+        for tx in txs:
+            for s in tx.fields[ctx.field_index("Transaction", "to")].items:
+                st.pc.append(L.enum_in_range(L.slip_field(ctx, s, "slip_type"), L.SLIP_TYPES))
+        st.pc.extend([z3.ULE(w.bv, 7 * 10**17) for w in works] + [z3.ULE(pre_work.bv, 7 * 10**17)])
+        outs = ex.run(body, [S.Ref(S.Cell(block), (), True)], st)
+        v.paths += len(outs)
+        seen = 0
+        want = sum([w.bv for w in works], z3.BitVecVal(0, 64))
+        for o in outs:
+            if o.kind in ("unsupported", "unwound", "path-limit"):
+                return v.undecided("n=%d %s %s" % (n, o.kind, o.info))
+            if o.kind != "return":
+                continue
+            post = o.state.frames[0].locals["_1"].v.cell.v
+            tw = post.fields[ctx.field_index("Block", "total_work")]
+            if not isinstance(tw, S.I):
+                return v.undecided("n=%d: block.total_work is not an integer value after generate (%s)" % (n, type(tw).__name__))
+            r, m = ex.model_for(o.pc, tw.bv != want)
+            v.queries += 1
+            if r == z3.sat:
+                v.sat += 1
+                ev = lambda x: m.eval(x, model_completion=True).as_long()
+                v.fail("block of %d: after generate() the block's total_work differs from the routing work its transactions carry" % n,
+                       dict(total_work_before=ev(pre_work.bv), work_of_transactions=[ev(w.bv) for w in works], total_work_after=ev(tw.bv)))
+            elif r == z3.unsat:
+                v.unsat += 1
+            else:
+                return v.undecided("n=%d solver %s" % (n, r))
+            seen += 1
+        v.covers_total += 1
+        v.covers_sat += 1 if seen else 0
